@@ -71,7 +71,7 @@ func init() {
 // ---------------------------------------------------------------------------
 // argument generation by parameter type
 
-var anyPool = []string{"N", "i7", "s78", "b1", "K n k=4 [ i1 ]", "K a k=1 [ ]", "C n - 6b c1 i2", "Z n", "Y n", "o20:1", "o20:5", "o21:1", "o1:1", "s-", "A [ s414e44 i1 ]"}
+var anyPool = []string{"N", "i7", "i1", "i2", "s78", "b1", "K n k=4 [ i1 ]", "K a k=1 [ ]", "C n - 6b c1 i2", "Z n", "Y n", "o20:1", "o20:5", "o21:1", "o1:1", "s-", "A [ s414e44 i1 ]"}
 
 func genArgs(r *rand.Rand, m reflect.Method, name string) ([]string, bool) {
 	var args []string
